@@ -1,2 +1,35 @@
-(* Props/C06.v — placeholder until the proofs land. *)
-From Coq Require Import ZArith.
+(* Props/C06.v — property C06: IPSet is canonical after any history, so equality is extensional.
+   Final, hypothesis-free statements over ALL thirteen operations of the register machine
+   (init / add / remove / update / clear / compact / copy / pickle / pop / | & - ^), obtained by discharging the
+   operator specifications with the C07 sweep theorems.  The per-operation theorems are in Props/C06_bulk.v
+   (constructors, update, compact, union, copy, clear, pop, pickle, shown, extensional) and Props/C06_add.v
+   (compact_single, add, remove, pop); both are checked together with this file.
+   Nothing but statements closed by `exact`, each followed by Print Assumptions. *)
+From NV Require Import Base.Tac Base.PyVal Base.Canon Model.Ip Model.Merge Model.Sets Proofs.NetDen
+  Proofs.C06_inv Proofs.C06_bulk Proofs.C06_final.
+From NV Require Import Extract.Cmd_Sets.
+Open Scope Z_scope.
+
+(* one step: from registers related to abstract sets (every register satisfies SetInv and denotes its abstract set),
+   any well-formed operation leads to registers related to the abstract result *)
+Theorem C06_step : forall rs s o, Rel rs s -> wf_op o -> exists s', astep s o s' /\ Rel (ostep rs o) s'.
+Proof. exact C06_step_closed. Qed.
+Print Assumptions C06_step.
+
+(* every reachable state: induction over any finite operation history *)
+Theorem C06_reachable : forall ops rs s, Rel rs s -> Forall wf_op ops ->
+  exists s', aruns s ops s' /\ Rel (fold_left ostep ops rs) s'.
+Proof. exact C06_reachable_closed. Qed.
+Print Assumptions C06_reachable.
+
+(* from four empty sets: after ANY history every register satisfies the invariant, what it shows (iter_cidrs, repr,
+   iteration = sorted keys) is the canonical list of exactly the addresses the history denotes, and == between two
+   registers holds iff they denote the same addresses *)
+Theorem C06_reachable_shown : forall ops, Forall wf_op ops ->
+  exists s', aruns aregs0 ops s' /\
+    let rs := fold_left ostep ops regs0 in
+    (forall r, SetInv (get rs r) /\ canon_nets (sorted (get rs r)) /\
+               forall ver x, den (sorted (get rs r)) ver x <-> aget s' r ver x) /\
+    (forall r1 r2, dict_eqb (get rs r1) (get rs r2) = true <-> forall ver x, aget s' r1 ver x <-> aget s' r2 ver x).
+Proof. exact C06_reachable_shown_closed. Qed.
+Print Assumptions C06_reachable_shown.
